@@ -35,13 +35,16 @@ func (prop) Rule() string {
 		"fixed fix-* regressions first; then four families: (m) membership histories over 1-2 groups and 6 peers (nbr toggles, add keep/known, remove into/out of known, prune, lists), " +
 		"(p) pruneKnown histories with 21-30 known peers, (f) flooding: groups of every GType, sub flag, then on/mc ops with ids 1..3 and origins {-,0..3} from several neighbours so that " +
 		"duplicates and re-deliveries dominate, with seen queries, (b) fallback: messages for a gid without group object while other groups have connected peers, (r) concurrent duplicates: " +
-		"the same wire message handed to 8 parallel handler goroutines. " +
+		"the same wire message handed to 12 parallel handler goroutines. " +
 		"Non-trivial: m/p: >=1 add and >=1 lists; f/b: a group exists and some (origin,id) occurs in >=2 on/mc ops; r: a race op on a joined, subscribed group."
 }
 
 /* ---------- fixed addresses ---------- */
 
 const maxPeers = 40
+
+// raceWidth handler goroutines receive the same message at once in a `race` op.
+const raceWidth = 12
 
 func peerAddr(i int) boson.Address {
 	b := make([]byte, 32)
@@ -575,7 +578,7 @@ func (rn *runner) Step(ctx *core.Ctx, op []string) string {
 		}
 		return rn.observe(ctx, strings.Join(op, " "), g, o, uint64(id), skip, data, false)
 	case op[0] == "race" && len(op) == 5:
-		// the same wire message handed to 8 handler goroutines at once (two neighbours forwarding
+		// the same wire message handed to raceWidth handler goroutines at once (two neighbours forwarding
 		// the same multicast simultaneously); output is schedule-independent, the oracle counts.
 		f, ok := atoi(op[1])
 		o, ok1 := rn.originAddr(op[2])
@@ -589,12 +592,13 @@ func (rn *runner) Step(ctx *core.Ctx, op []string) string {
 		rn.st.sent = nil
 		var wg sync.WaitGroup
 		start := make(chan struct{})
-		for i := 0; i < 8; i++ {
+		for i := 0; i < raceWidth; i++ {
 			wg.Add(1)
 			go func(i int) {
 				defer wg.Done()
+				st := &stream{r: bytes.NewReader(w), w: &bytes.Buffer{}}
 				<-start
-				_ = rn.hnd(context.Background(), p2p.Peer{Address: peerAddr((f + i) % 6)}, &stream{r: bytes.NewReader(w), w: &bytes.Buffer{}})
+				_ = rn.hnd(context.Background(), p2p.Peer{Address: peerAddr((f + i) % 6)}, st)
 			}(i)
 		}
 		close(start)
@@ -687,12 +691,12 @@ func (prop) Gen(r *core.Rand, tier string) []core.Case {
 		{ID: "fix-malformed", NT: false, Ops: []string{"lists 0", "add 0 1 1", "prune 0", "sub 0 1", "group 0 bogus", "add x 1 1", "on 1 2 3", "mc 1", "frob", "nbr 1 2", "seen 1 1", "on 1 2 3 0", "race 1 2 3 0"}},
 	}
 	// regression for the non-atomic de-duplication check (fixed: property=C38): before the repair about
-	// 1 in 250 of these concurrent duplicates was delivered twice, so 1500 of them expose it reliably
+	// 1 in 250 of these concurrent duplicates was delivered twice, so 4000 of them expose it with high probability (a stress test: detection is probabilistic)
 	cd := core.Case{ID: "fix-concurrent-dup", NT: true, Ops: []string{"group 0 join", "sub 0 1", "nbr 1 1", "add 0 1 1", "add 0 2 1"}}
-	for i := 1; i <= 1500; i++ {
+	for i := 1; i <= 4000; i++ {
 		cd.Ops = append(cd.Ops, fmt.Sprintf("race %d 4 %d 0", 1+i%5, i))
 	}
-	cd.Ops = append(cd.Ops, "seen 4 1", "seen 4 1500", "on 3 4 77 0")
+	cd.Ops = append(cd.Ops, "seen 4 1", "seen 4 4000", "on 3 4 77 0")
 	cs = append(cs, cd)
 	for i := 0; i < n; i++ {
 		rr := r.Fork()
